@@ -72,8 +72,9 @@ Definition q_ctor (w : qworld) (s : bool) (size : N) : outcome qworld :=
   doo h <- lift (l_init (w_h w) (qaddr s)) ;
   Ok (setq (seth w h) s (mkQ [] (if N.eqb size 0 then 1 else size) 0 0)).
 
-(* a_que_new_: returns the node (0 = allocation failed) *)
-Definition q_new_ (w : qworld) (s : bool) : qworld * id :=
+(* a_que_new_: returns the node (0 = allocation failed).  The pop  ptr_[--cur_]  is bounds-checked
+   against the capacity mem_ of the pool array. *)
+Definition q_new_ (w : qworld) (s : bool) : outcome (qworld * id) :=
   let q := getq w s in
   match q_pool q with
   | [] =>
@@ -82,23 +83,29 @@ Definition q_new_ (w : qworld) (s : bool) : qworld * id :=
         let n := w_fresh w1 in
         let w2 := mkW (dset (w_h w1) n (mkD 0 0)) (vset (w_val w1) n 0%Z) (n + 1)
                       (w_qa w1) (w_qb w1) (w_sched w1) (w_trace w1) in
-        (setq w2 s (mkQ [] (q_siz q) (q_num q + 1) (q_mem q)), n)
-      else (w1, 0)
-  | n :: rest => (setq w s (mkQ rest (q_siz q) (q_num q + 1) (q_mem q)), n)
+        Ok (setq w2 s (mkQ [] (q_siz q) (q_num q + 1) (q_mem q)), n)
+      else Ok (w1, 0)
+  | n :: rest =>
+      if N.ltb (q_mem q) (N.of_nat (length (q_pool q))) then Fault
+      else Ok (setq w s (mkQ rest (q_siz q) (q_num q + 1) (q_mem q)), n)
   end.
 
-(* a_que_die_: returns the error code (0 success, 2 A_INVALID, 4 A_OMEMORY) *)
-Definition q_die_ (w : qworld) (s : bool) (node : id) : qworld * Z :=
-  if N.eqb node 0 then (w, 2%Z)
+(* a_que_die_: returns the error code (0 success, 2 A_INVALID, 4 A_OMEMORY).  The push
+   ptr_[cur_++] = node  is bounds-checked against the (possibly just grown) capacity. *)
+Definition q_die_ (w : qworld) (s : bool) (node : id) : outcome (qworld * Z) :=
+  if N.eqb node 0 then Ok (w, 2%Z)
   else
     let q := getq w s in
     let cur := N.of_nat (length (q_pool q)) in
     if N.leb (q_mem q) cur then
       let mem := size_up8 (q_mem q + N.div2 (q_mem q) + 1) in
       let '(w1, ok) := ask w (RPool (8 * mem)) in
-      if ok then (setq w1 s (mkQ (node :: q_pool q) (q_siz q) (q_num q - 1) mem), 0%Z)
-      else (w1, 4%Z)
-    else (setq w s (mkQ (node :: q_pool q) (q_siz q) (q_num q - 1) (q_mem q)), 0%Z).
+      if ok then
+        if N.ltb cur mem
+        then Ok (setq w1 s (mkQ (node :: q_pool q) (q_siz q) (q_num q - 1) mem), 0%Z)
+        else Fault
+      else Ok (w1, 4%Z)
+    else Ok (setq w s (mkQ (node :: q_pool q) (q_siz q) (q_num q - 1) (q_mem q)), 0%Z).
 
 (* the k-th node (0-based) met from [it] following next (fwd=true) or prev until [head];
    0 when the head is reached first *)
@@ -129,7 +136,8 @@ Definition q_back (w : qworld) (s : bool) : outcome id :=
 
 (* a_que_push_fore / push_back; the caller then stores v through the returned pointer *)
 Definition q_push (fore : bool) (w : qworld) (s : bool) (v : Z) : outcome (qworld * id) :=
-  let '(w1, node) := q_new_ w s in
+  doo xn <- q_new_ w s ;
+  let '(w1, node) := xn in
   if N.eqb node 0 then Ok (w1, 0)
   else
     doo h <- lift (if fore then l_add_next (w_h w1) (qaddr s) node
@@ -138,7 +146,8 @@ Definition q_push (fore : bool) (w : qworld) (s : bool) (v : Z) : outcome (qworl
 
 (* common tail of pull_fore / pull_back / remove:  if (a_que_die_(ctx,node)==0) { del_node; dtor; return node } *)
 Definition q_take (w : qworld) (s : bool) (node : id) : outcome (qworld * id) :=
-  let '(w1, rc) := q_die_ w s node in
+  doo xd <- q_die_ w s node ;
+  let '(w1, rc) := xd in
   if Z.eqb rc 0 then
     doo h1 <- lift (l_del_node (w_h w1) node) ;
     doo h2 <- lift (l_init h1 node) ;
@@ -153,7 +162,8 @@ Definition q_pull (fore : bool) (w : qworld) (s : bool) : outcome (qworld * id) 
 (* a_que_insert *)
 Definition q_insert (w : qworld) (s : bool) (idx : N) (v : Z) : outcome (qworld * id) :=
   if N.ltb idx (q_num (getq w s)) then
-    let '(w1, node) := q_new_ w s in
+    doo xn <- q_new_ w s ;
+  let '(w1, node) := xn in
     if N.eqb node 0 then Ok (w1, 0)
     else
       let head := qaddr s in
@@ -245,7 +255,8 @@ Definition q_sort_back (w : qworld) (s : bool) : outcome qworld :=
 Definition q_push_sort (w : qworld) (s : bool) (key : Z) : outcome (qworld * id) :=
   let head := qaddr s in
   doo it0 <- lift (rd_prev (w_h w) head) ;
-  let '(w1, node) := q_new_ w s in
+  doo xn <- q_new_ w s ;
+  let '(w1, node) := xn in
   if N.eqb node 0 then Ok (w1, 0)
   else
     doo it <- (if N.ltb 1 (q_num (getq w1 s))
@@ -311,7 +322,8 @@ Fixpoint q_drop_loop (w : qworld) (s : bool) (fuel : nat) : outcome (qworld * Z)
       doo node <- lift (rd_next (w_h w) head) ;
       if N.eqb node head then Ok (w, 0%Z)
       else
-        let '(w1, rc) := q_die_ w s node in
+        doo xd <- q_die_ w s node ;
+  let '(w1, rc) := xd in
         if Z.eqb rc 0 then
           doo h1 <- lift (l_del_node (w_h w1) node) ;
           doo h2 <- lift (l_init h1 node) ;
